@@ -6,9 +6,9 @@ HOOKS = {
     "add_only": True,
 }
 ENGINES = [
-    {"name": "coq-model", "path": "/verif/coq", "serves_properties": ["C01", "C12", "C13"],
+    {"name": "coq-model", "path": "/verif/coq", "serves_properties": ["C01", "C12", "C13", "C14"],
      "kind_free_text": "hand-written Gallina model (Model/), proofs (Proofs/), property theorems (Props/), Coq 8.16.1"},
-    {"name": "correspondence", "path": "/verif/harness", "serves_properties": ["C01", "C12", "C13"],
+    {"name": "correspondence", "path": "/verif/harness", "serves_properties": ["C01", "C12", "C13", "C14"],
      "kind_free_text": "Go harness driving /repo (built with -tags verif) + extracted OCaml model and oracle (ocaml/) on the same cases"},
 ]
 NOTES = ("Every check: rebuild Coq closure of Props/<id>.v, parse Print Assumptions, build harness against /repo's working tree, "
@@ -36,6 +36,19 @@ CHECKS = [
         "wall-clock _id values normalised. Timestamp leaves with non-zero seconds are a known finding.",
         "Coq proof (structural induction over value trees, delta/RLE/varint inverses, per-kind chunking invariants) + differential correspondence",
         "DESIGN.md section 8 C01"),
+    chk("C14",
+        "19 Coq theorems (Props/C14.v) over a store-based model of events/collector.go and events/performance.go in which event objects are "
+        "addressed by index, so repeated pointers (also the running-total pointer itself) have their Go meaning: Performance.Add for any two "
+        "pointers; the cumulative collector writes for the k-th event the wrap-around sums of counters/timers of events 1..k with the k-th "
+        "event's timestamp, gauges and id rule, for fresh events and for arbitrary histories over the value each object had when added; the "
+        "n-sampling collector writes exactly positions 0,n,2n,... with the running totals; pass-through writes every event unchanged; nil is "
+        "refused and changes nothing; unmarshal(marshal p) = p over explicit key tables; timestamps survive at millisecond precision. "
+        "Correspondence: histories through three event collectors x five ftdc collectors decoded with ReadMetrics, marshal/unmarshal and "
+        "MarshalBSON round trips; extracted oracles applied to the decoded samples.",
+        "Trusted: as C12. Errors of the wrapped ftdc collector are outside the events model (base collector given ample capacity); timestamps "
+        "kept within years 1800-2200 (UnixNano range is C01's concern); sampling rate 0 modelled as a panic, excluded (n >= 1).",
+        "Coq proof (induction over operation histories on an explicit object store) + differential correspondence",
+        "DESIGN.md section 8 C14"),
     chk("C13",
         "Seven Coq theorems (Props/C13.v) over the hdrhist model: value at rank k = representative of the exact k-th order statistic for "
         "every multiset and rank; monotone in rank; Min/Max/mean numerator exact up to the range width; merge of equal geometry = recording "
